@@ -4,7 +4,8 @@
    and witnesses that each clause of names_unambiguous is needed. *)
 From Coq Require Import Lia ZArith List Arith Bool Permutation.
 From Verif Require Import Base.Prelude Base.Str Schema.Regex Schema.Units
-  Proofs.UnitsArith Proofs.UnitsStringRe Proofs.UnitsStringTok Proofs.UnitsStringSound Proofs.UnitsStringRound.
+  Proofs.UnitsArith Proofs.UnitsStringRe Proofs.UnitsStringTok Proofs.UnitsStringSound Proofs.UnitsStringRound
+  Proofs.TrimSpaceU.
 Import ListNotations.
 Open Scope Z_scope.
 Open Scope list_scope.
@@ -229,11 +230,16 @@ Qed.
 
 (* ================= trimming and the accumulator ================= *)
 
-Lemma trim_id : forall s c t c' r, chars s = c :: t -> is_trim_space c = false ->
-  rev (chars s) = c' :: r -> is_trim_space c' = false -> chars (trim_space s) = chars s.
+(* strings.TrimSpace (UTF-8 aware, Base/Str.v) leaves alone a text that starts with a digit and whose last
+   name - preceded by the last digit of its count - does not end with a white-space character *)
+Lemma trim_id : forall s c t pre dg nm, chars s = c :: t -> is_digit c = true ->
+  chars s = pre ++ dg :: chars nm -> is_digit dg = true -> name_last_ok (chars nm) = true ->
+  chars (trim_space s) = chars s.
 Proof.
-  intros s c t c' r E Hc E' Hc'. unfold trim_space. rewrite chars_unchars, E. cbn [drop_while]. rewrite Hc, <- E, E'.
-  cbn [drop_while]. rewrite Hc', <- E'. apply rev_involutive.
+  intros s c t pre dg nm E Hc El Hdg Hl. apply (trim_space_id s c t E Hc).
+  unfold name_last_ok in Hl. destruct (rev (chars nm)) as [|c' r'] eqn:Erev; [discriminate|]. apply negb_true_iff in Hl.
+  rewrite El, rev_app_distr. cbn [rev]. rewrite <- app_assoc. cbn [app].
+  rewrite head_spr_digit; [rewrite Erev; exact Hl | rewrite Erev; discriminate | exact Hdg].
 Qed.
 
 Lemma in_i64_range : forall x, 0 <= x <= max_i64 -> in_i64 x = true.
@@ -294,11 +300,9 @@ Proof.
   set (f := format_int_with fmt1 u n) in *.
   assert (Et : chars (trim_space f) = render ocs).
   { rewrite <- Ec. destruct (render ocs) as [|c t] eqn:Er; [congruence|]. cbn [head_is] in Hh.
-    destruct (render_last _ _ V ltac:(rewrite Er; discriminate)) as (p & nm & pre & Ip & Inm & Nn & El).
-    pose proof (ng_last _ NG p nm Ip Inm Nn) as Hl. unfold name_last_ok in Hl.
-    destruct (rev (chars nm)) as [|c' r'] eqn:Erev; [discriminate|]. apply negb_true_iff in Hl.
-    eapply (trim_id f c t c' (r' ++ rev pre)); [exact Ec | apply (digit_not_space c Hh) | | exact Hl].
-    rewrite Ec, <- Er, El, rev_app_distr, Erev. reflexivity. }
+    destruct (render_last _ _ V ltac:(rewrite Er; discriminate)) as (p & nm & pre & dg & Ip & Inm & Nn & Hdg & El).
+    pose proof (ng_last _ NG p nm Ip Inm Nn) as Hl.
+    apply (trim_id f c t pre dg nm); [exact Ec | exact Hh | rewrite Ec, <- Er; exact El | exact Hdg | exact Hl]. }
   assert (Eu : useq (uparts u) (render ocs) (map otok ocs)) by (apply render_useq; exact V).
   assert (Lk : List.length (map otok ocs) = List.length (units_keys u)).
   { rewrite (useq_length _ _ _ Eu). unfold units_keys. rewrite <- uparts_keys, map_length. reflexivity. }
